@@ -56,6 +56,22 @@ def sprinkle(rng, data, rate):
     return bytes(out)
 
 
+GAPS = [bytes([w]) for w in WS] + [b'\r\n', b'\n\n', b' \n', b'\r\n \t']
+
+
+def marker_gap(rng, share=0.4):
+    """white space an encoder may put directly before the EOD marker and between the `~` and `>` of it: each
+    PDF white-space byte and the usual EOL pairs, in a good share of the cases"""
+    return rng.choice(GAPS) if rng.random() < share else b''
+
+
+def line_wrap(rng, text):
+    """a fixed-width line wrapper over digits AND marker: the line break may fall anywhere, also inside `~>`"""
+    width = rng.choice([1, 2, 3, 5, 7, 16, 64, 72, 76, 80])
+    eol = rng.choice([b'\n', b'\r\n', b'\r'])
+    return eol.join(text[i:i + width] for i in range(0, len(text), width))
+
+
 def eol_tail(rng):
     return rng.choice([b'', b'\n', b'\r\n', b'\r', b'\n\n', b' \n'])
 
@@ -73,8 +89,10 @@ def ahex_encode(rng, p, ws=0.0):
         digs = bytearray((p.hex().upper() if style == 1 else p.hex()).encode())
     if p and p[-1] & 15 == 0 and rng.random() < 0.7:
         digs = digs[:-1]                    # odd number of digits: the last one is followed by an implied 0
+    if len(p) <= 5000 and rng.random() < 0.25:
+        return line_wrap(rng, bytes(digs) + b'>') + eol_tail(rng)
     body = sprinkle(rng, bytes(digs), ws)
-    return body + b'>' + eol_tail(rng)
+    return body + marker_gap(rng) + b'>' + eol_tail(rng)
 
 
 def a85_group(v, n):
@@ -86,6 +104,15 @@ def a85_group(v, n):
 
 
 def a85_encode(rng, p, ws=0.0, zprob=0.8):
+    out = a85_body(rng, p, zprob)
+    if len(p) <= 5000 and rng.random() < 0.25:
+        return line_wrap(rng, out + b'~>') + eol_tail(rng)
+    body = sprinkle(rng, out, ws)
+    return body + marker_gap(rng) + b'~' + marker_gap(rng) + b'>' + eol_tail(rng)
+
+
+def a85_body(rng, p, zprob=0.8):
+    """the characters of an encoding of p (no white space, no marker)"""
     out = bytearray()
     i = 0
     while i + 4 <= len(p):
@@ -99,8 +126,7 @@ def a85_encode(rng, p, ws=0.0, zprob=0.8):
         n = len(p) - i
         v = int.from_bytes(p[i:] + bytes(4 - n), 'big')
         out += a85_group(v, n + 1)
-    body = sprinkle(rng, bytes(out), ws)
-    return body + b'~>' + eol_tail(rng)
+    return bytes(out)
 
 
 def adler(b):
@@ -457,6 +483,29 @@ def valid_cases(tier, rng):
             p = tail + bytes([b])
             out.append(' '.join(['t', AH, 'n', hx(ahex_encode(rng, p))]))
             out.append(' '.join(['t', A85, 'n', hx(a85_encode(rng, p))]))
+    p63 = bytes((7 * i + 3) & 255 for i in range(63))
+    d63 = a85_body(rng, p63, zprob=0.0)
+    wrapped = b'\n'.join((d63 + b'~>')[i:i + 80] for i in range(0, len(d63) + 2, 80))      # 79 digits + `~` | `>`
+    assert len(d63) == 79 and wrapped.endswith(b'~\n>')
+    out.append(' '.join(['t', A85, 'n', hx(wrapped)]))
+    out.append(stream_case({'Filter': ('name', A85), 'Length': len(wrapped)}, wrapped, []))
+    for g in GAPS:
+        for p in (b'', b'a', b'abcd', b'\x00\x00\x00\x00', p63):
+            body = a85_body(rng, p)
+            hbody = p.hex().encode()
+            for enc_, name in ((body + b'~' + g + b'>', A85), (body + g + b'~>', A85), (body + g + b'~' + g + b'>' + g, A85),
+                               (hbody + g + b'>', AH)):
+                out.append(' '.join(['t', name, 'n', hx(enc_)]))
+                d = {'Filter': [('name', name)], 'Length': len(enc_)}
+                out.append(stream_case(d, enc_, []))
+                z = zlib.compress(enc_)
+                d2 = {'Filter': [('name', FL), ('name', name)]}
+                out.append(stream_case(d2, z, flate_inputs(d2, z)))
+                inner = (zlib.compress(p).hex().encode() if name == AH else
+                         a85_body(rng, zlib.compress(p)))
+                enc2 = inner + (g + b'>' if name == AH else b'~' + g + b'>')
+                d3 = {'Filter': [('name', name), ('name', FL)]}
+                out.append(stream_case(d3, enc2, flate_inputs(d3, enc2)))
     for p in (b'', b'abcd', b'\x00\x00\x00\x00xy', b'<~>'):
         out.append(' '.join(['t', A85, 'n', hx(b'<~' + a85_encode(rng, p))]))
         out.append(' '.join(['t', A85, 'n', hx(b' <~<~' + a85_encode(rng, p))]))      # repeated marker: not tolerated
@@ -487,7 +536,7 @@ def corrupt_cases(tier, rng):
             elif how == 3:
                 enc = enc[:rng.randrange(len(enc))]
         elif name == A85:
-            body = bytes(enc).split(b'~>')[0]
+            body = bytes(enc).split(b'~')[0]
             if how == 0:
                 enc = bytearray(body)                                               # no EOD
             elif how == 1:
